@@ -8,7 +8,28 @@ ASSUME = ("Trusted base: the Go toolchain (go1.23.5) as semantics oracle; the ve
           "never 'verified'. ")
 
 # id -> (engine, technique, level text, level note)   (only claimed properties)
+E1NOTE = ASSUME + "Trusted base of E1: iter.Pull, the ~60-line reference coroutine runtime (probes/ref), the trace package (probes/tr), the dual renderer's marker table (harness/internal/render). Programs outside the generator's grammar, tapes beyond the bit bound and quarantined known-finding classes (KNOWN_FINDINGS.txt) are not covered. "
 CHECKS = {
+ "C01": ("E1 diff-trace",
+         "runtime differential monitor: real compiler output vs the same Go text on a reference coroutine runtime (iter.Pull), value/termination projection of the event trace; directed + bounded-exhaustive + PRNG programs x all decision-tape paths",
+         "Exploration: directed shapes + every well-formed statement tree up to 3 nodes (5 thorough, capped) + PRNG programs, each compiled by the real rewriter (stand-alone driver) and run under every decision-tape path (depth-first, capped) with drain and truncated histories; the MoveNext/Current projection must equal the reference coroutine's.",
+         E1NOTE),
+ "C02": ("E1 diff-trace",
+         "runtime monitor of the full interleaved event log (consumer call/return markers + generator-side effects and expression evaluations) vs the reference coroutine, every truncation history, plus no-event-after-stop",
+         "Exploration: effect-dense programs (variables mutated after being yielded) under every tape path and histories drain / K=0,1,2,4 / 2 calls after exhaustion; full-trace equality with the reference coroutine decides which statements ran inside which MoveNext.",
+         E1NOTE),
+ "C07": ("E1 diff-trace + hook H1",
+         "runtime differential monitor between the two real artefacts: unoptimised stage-1 package (snapshot by the verif hook inside the real Compile) vs optimised package, full interleaved traces; build of the final package",
+         "Exploration: all E1 streams + optimiser-directed cases; stage-1 and final packages are both built and executed under every tape path and history; traces must be identical and the final package must build whenever stage-1 does; the evidence counts in how many programs the optimiser actually changed the text.",
+         E1NOTE + "Stage-1 files get one appended dummy use of the go-co import (stage 1 never cleans imports)."),
+ "C11": ("E1 diff-trace (acceptance)",
+         "runtime monitor of the real compile entry point (stand-alone binary: panic = rejection) and of `go build` of the generated package, over the supported-subset program streams x import styles",
+         "Exploration: every supported-subset program of the streams in 5 import styles; a compiler panic or an unbuildable generated package is attributed to a single program by re-running it alone.",
+         E1NOTE),
+ "C13": ("E1 diff-trace (native source as reference)",
+         "runtime differential monitor: the source package built natively vs the generated package on the same driver, result/effect traces; build of the generated package",
+         "Exploration: directed bystander declarations (closure shapes func(ps){return f(ps)} over every kind of callee, constants, initialisers, methods) co-located with generators; the natively built source is the oracle.",
+         E1NOTE),
  "C08": ("E2 seq-model",
          "runtime differential monitor: real seq terms driven through the public API vs a big-step reference interpreter; bounded-exhaustive term enumeration + PRNG terms + metamorphic Combine laws",
          "Exploration: all well-formed combinator terms up to 5 nodes (6 thorough) exhaustively plus 60k (1.5M) PRNG terms up to 30 nodes; the full interleaved event list (consumer call/return markers, thunk/cond/post evaluations, yields, final result) must equal the reference interpreter's, which decides every truncation point; associativity and unit laws on PRNG triples.",
